@@ -13,7 +13,7 @@ func init() {
 	core.Register(&core.Spec{
 		ID: "C16", Engine: "node", Run: c16Run,
 		QuickRuns: 4000, ThorRuns: 300000, QuickCap: 60 * time.Second, ThorCap: 12 * time.Minute,
-		Rule:   "a run generates a configuration tree from the catalogue, renders it, and checks: same text -> same hash in two manager instances, in a child OS process and as reported by a real sidecar's runtimeinfo after a push; 1-3 cosmetic variants (indentation, comments, key order, quoting, flow style, document start, trailing blanks, external-label changes) -> same hash; 1-4 single-setting semantic edits (every scalar kind incl. regexes and secrets, SD options, list reorder) -> different hash; a case is (cosmetic kind) or (edit kind x field path)",
+		Rule:   "a run generates a configuration tree from the catalogue, renders it, and checks: same text -> same hash in two manager instances, in a child OS process, when read from a file in a drawn directory (and when received as text by a manager that read a file earlier) and as reported by a real sidecar's runtimeinfo after a push; 1-3 cosmetic variants (indentation, comments, key order, quoting, flow style, document start, trailing blanks, external-label changes) -> same hash; 1-4 single-setting semantic edits (every scalar kind incl. regexes and secrets, SD options, list reorder) -> different hash; a case is (cosmetic kind) or (edit kind x field path)",
 		Real:   []string{"prom.ConfigManager.ReloadFromRaw (config.Load + hashstructure)", "sidecar.Service runtimeinfo", "a separate OS process"},
 		Stub:   []string{"none for hashing"},
 		Assume: []string{"edits are drawn from per-field value domains that exclude textually different but semantically equal values (e.g. 1m vs 60s)", "whether the coordinator then treats shards as in sync over cycles is exercised by the world engine"},
@@ -38,7 +38,7 @@ func init() {
 	core.Register(&core.Spec{
 		ID: "C12", Engine: "node", Run: c12Run,
 		QuickRuns: 3000, ThorRuns: 150000, QuickCap: 60 * time.Second, ThorCap: 12 * time.Minute,
-		Rule: "a run performs 1-6 successful scrapes through the real proxy with a drawn payload class (generated samples, empty, one line without newline, comment/blank/HELP/TYPE lines, lines the statistics parser rejects, CRLF, one line of up to 262000 bytes, 1-6 MiB), identity or gzip, drawn read-chunk pattern on the target side (1 byte ... 1 MiB) and drawn short-write pattern on the Prometheus side (a ResponseWriter accepting 1..n bytes per call), or through a real net/http server+client over net.Pipe; assigned and unassigned hashes; a case is (payload class) x (assigned?) x gzip x (writer | net/http)",
+		Rule: "a run performs 1-6 successful scrapes through the real proxy with a drawn payload class (generated samples, empty, one line without newline, comment/blank/HELP/TYPE lines, lines the statistics parser rejects, CRLF, one line of up to 262000 bytes, 1-6 MiB), identity or gzip (one member, or 2-4 concatenated gzip members), drawn read-chunk pattern on the target side (1 byte ... 1 MiB) and drawn short-write pattern on the Prometheus side (a ResponseWriter accepting 1..n bytes per call), or through a real net/http server+client over net.Pipe; assigned and unassigned hashes; a case is (payload class) x (assigned?) x gzip x (writer | net/http)",
 		Real: append([]string{"net/http server and client over net.Pipe (a quarter of the scrapes)"}, realNode...), Stub: stubNode,
 		SchedLabels: []string{"op", "scrape_outcome", "fail_kind", "fail_offset", "update_mode", "prom_reload_fails", "overlap_flip", "kind", "break_offset", "timeout_offset", "chunking", "short_writes", "chunk", "cut_point", "child_cut_point", "config_change", "op_is_config"},
 		Assume:      []string{"lines stay below the VictoriaMetrics stream parser's 256 KiB line limit, as the statement requires"},
@@ -55,7 +55,7 @@ func init() {
 		ID: "C14", Engine: "node",
 		Run:       modelRun(nodeCfg{updW: 3, scrapeW: 12, restartW: 1, advW: 2, overlapW: 2, minOps: 4, maxOps: 40, failW: 3, bigPayload: true}),
 		QuickRuns: 6000, ThorRuns: 300000, QuickCap: 60 * time.Second, ThorCap: 12 * time.Minute,
-		Rule: "a run is a drawn sequence of 4-40 operations on one real sidecar, mostly scrapes through the real proxy of payloads built from a drawn list of (metric name, label set) samples (so total and kept counts under the job's metric relabel rules are known by construction; kept = Prometheus' own relabel.Process per sample), with failures, several targets and jobs, updates and restarts; after every operation /status/, /runtimeinfo/ and /samples/?with_metrics_detail are compared with the model (series = floor(mean of last <=3 successful kept counts), total = last success, process = sum of totals, head = max(prometheus head, sum of series)); a case is (operation kinds mixed) x (final entry classes) x idle?",
+		Rule: "a run is a drawn sequence of 4-40 operations on one real sidecar, mostly scrapes through the real proxy of payloads built from a drawn list of (metric name, label set) samples (so total and kept counts under the job's metric relabel rules are known by construction; kept = Prometheus' own relabel.Process per sample; the three jobs have no rules / a drop on the metric name / a replace rule feeding a drop rule on the rewritten label, then a labeldrop), with failures, several targets and jobs, updates and restarts; after every operation /status/, /runtimeinfo/ and /samples/?with_metrics_detail are compared with the model (series = floor(mean of last <=3 successful kept counts), total = last success, process = sum of totals, head = max(prometheus head, sum of series)); a case is (operation kinds mixed) x (final entry classes) x idle?",
 		Real: realNode, Stub: stubNode,
 		SchedLabels: []string{"op", "scrape_outcome", "fail_kind", "fail_offset", "update_mode", "prom_reload_fails", "overlap_flip", "kind", "break_offset", "timeout_offset", "chunking", "short_writes", "chunk", "cut_point", "child_cut_point", "config_change", "op_is_config"},
 		Assume:      []string{"after a failed scrape the per-scrape statistics of that target are unspecified and not compared"},
